@@ -36,3 +36,11 @@ Theorem C04_spec_holds_of_model :
   forall sc : escen, spec_C04 sc (eobs_of_model (model_obs sc)) = true.
 Proof. exact spec_C04_model_lemma. Qed.
 Print Assumptions C04_spec_holds_of_model.
+
+(* the predicate the case files apply (spec_C04 and "a framework-class error only where the scenario
+   has a cause for one", Proofs/FwCauseProofs.v) holds of the model's observation of every scenario *)
+From Flyt Require Import SpecBatch FwCauseProofs.
+Theorem C04_specx_holds_of_model :
+  forall sc : escen, spec_C04x sc (eobs_of_model (model_obs sc)) = true.
+Proof. exact spec_C04x_model_lemma. Qed.
+Print Assumptions C04_specx_holds_of_model.
